@@ -82,6 +82,17 @@ def cases(tier, rnd):
             out.append({"move": "subtree", "n": p["n"], "outliers": p["outliers"], "kind": p["kind"], "N": p["N"], "theta": p["theta"],
                         "group": p["pin"], "nstates": len(states), "data": ds.to_json(), "alpha": p["alpha"], "start": [f, o], "pin": p["pin"],
                         "relabel": True})
+    # prune-regraft on larger trees, one start tree at a time (the whole matrix is out of reach): the row is compared with
+    # the model's and with the Gibbs conditional recomputed independently (every attachment point of every prunable clone)
+    from ..common import random_canon_tree
+    for i in range(6 if tier == "quick" else 40):
+        n = rnd.randint(7, 10)
+        vals = [gen_values(rnd, 1, 3, bits=3) for _ in range(n)]
+        ds = DataSet(vals, Fraction(0))
+        f, o = random_canon_tree(rnd, n, outliers=False)
+        out.append({"move": "prg", "n": n, "outliers": False, "kind": "semi-adapted", "N": 2, "theta": "1/2", "group": f"big{i}", "nstates": 0,
+                    "data": ds.to_json(), "alpha": rnd.choice(["3/10", "1/1", "7/2"]), "start": [f, o], "pin": None, "relabel": i % 2 == 1,
+                    "single": True})
     out.sort(key=lambda c: (c["move"] != "subtree", -c["n"]))
     return out
 
@@ -108,6 +119,65 @@ def real_row(case, ds, td):
         row[r] = row.get(r, 0.0) + p
         leaves += 1
     return row, leaves
+
+
+def prg_expected_row(ds, td, forest, outs):
+    """What the property says the prune-regraft move does, recomputed on nested lists (no sampler code): choose a clone
+    uniformly, prune its subtree, re-attach it below every remaining clone or at the top level with probability
+    proportional to the fixed-root joint density."""
+    import copy as _c
+    from ..common import canon_forest
+
+    paths = []
+
+    def walk(lst, path):
+        for i, node in enumerate(lst):
+            paths.append(path + [i])
+            walk(node[1], path + [i])
+
+    walk(forest, [])
+    K = len(paths)
+    row = {}
+    if K <= 1:
+        return {tkey(canon_forest(forest), outs): 1.0}
+    for path in paths:
+        f2 = _c.deepcopy(forest)
+        lst = f2
+        for i in path[:-1]:
+            lst = lst[i][1]
+        sub = lst.pop(path[-1])
+        places = []
+
+        def collect(l):
+            for node in l:
+                places.append(node)
+                collect(node[1])
+
+        collect(f2)
+        if not places:
+            k = tkey(canon_forest(forest), outs)
+            row[k] = row.get(k, 0.0) + 1.0 / K
+            continue
+        cands = []
+        for j in range(len(places) + 1):
+            f3 = _c.deepcopy(f2)
+            pl = []
+
+            def collect3(l):
+                for node in l:
+                    pl.append(node)
+                    collect3(node[1])
+
+            collect3(f3)
+            (f3 if j == len(places) else pl[j][1]).append(_c.deepcopy(sub))
+            cf = canon_forest(f3)
+            cands.append((tkey(cf, outs), float(td.log_p_one(build_tree(ds.real, cf, outs)))))
+        lps = np.array([c[1] for c in cands])
+        w = np.exp(lps - lps.max())
+        w /= w.sum()
+        for (k, _), q in zip(cands, w):
+            row[k] = row.get(k, 0.0) + q / K
+    return row
 
 
 def _dps(forest):
@@ -137,8 +207,17 @@ def check(ctx, case):
         ctx.done(case, nontrivial=False, sample={"skipped": "relative ESS within 1e-9 of the threshold", "start": case["start"]})
         return
     lp1 = float(td.log_p_one(build_tree(ds.real, f, o)))
-    ctx.partial(case["group"], {"start": tkey(f, o), "row": row, "lp1": lp1, "nstates": case["nstates"],
-                                "case": {k: v for k, v in case.items() if k != "start"}})
+    if case.get("single"):
+        exp_row = prg_expected_row(ds, td, f, o)
+        dev = max(abs(row.get(k, 0.0) - exp_row.get(k, 0.0)) for k in set(row) | set(exp_row))
+        ctx.stat("big_single_rows")
+        if dev > 1e-9:
+            ctx.oracle_fail(case, f"prune-regraft on {case['n']} clones: transition row differs from the Gibbs conditional over all "
+                            f"attachment points by {dev:.3e}", "mcmc.gibbs_mh.PruneRegraphSampler.sample_tree",
+                            {"kind": "row-not-gibbs-conditional"}, {"max_abs": dev})
+    else:
+        ctx.partial(case["group"], {"start": tkey(f, o), "row": row, "lp1": lp1, "nstates": case["nstates"],
+                                    "case": {k: v for k, v in case.items() if k != "start"}})
     if case["move"] == "subtree":
         req = {"op": "subtree", "data": case["data"], "N": case["N"], "theta": case["theta"],
                "cfg": {"kind": case["kind"], "op": "1/10" if case["outliers"] else "0/1", "alpha": case["alpha"], "perm": True},
@@ -220,6 +299,8 @@ def search(ctx, failed, rnd, deadline):
 
 def replay(ctx, case):
     """A replay names a configuration (and possibly one start tree): recompute every row of that configuration and judge it."""
+    if case.get("single"):
+        return check(ctx, case)  # a single transition row judged on its own (larger trees)
     ds = DataSet.from_json(case["data"])
     states = all_canon_trees(case["n"], outliers=case["outliers"])
     base = {k: v for k, v in case.items() if k not in ("start", "target")}
